@@ -21,6 +21,7 @@ const (
 )
 
 var kindNames = [...]string{"unary", "oneway", "onewayw", "cstream", "sstream", "bidi"}
+var kindShort = [...]string{"u", "o", "w", "c", "s", "b"}
 
 // Handler outcomes.
 const (
